@@ -339,7 +339,7 @@ func successExits(fl *Flow, idx int) []SuccessExit {
 		if !fl.Reachable(r.Block()) || idx >= len(r.Results) {
 			continue
 		}
-		v := r.Results[idx]
+		v := retValue(r, idx)
 		if knownNonNilError(v) {
 			continue
 		}
@@ -437,4 +437,90 @@ func namedType(p *Prog, rel, name string) types.Type {
 		return nil
 	}
 	return n
+}
+
+func sortStrings(s []string) { sort.Strings(s) }
+
+// errNilOf reports whether the fact set contains "<call> == nil" for a call whose key
+// satisfies pred (the error result of that call was nil on every path here).
+func errNilOf(s FactSet, pred func(string) bool) bool {
+	return s.Has(func(f Fact) bool { return f.Op == "==" && oneIsNil(f) && pred(nonNil(f)) })
+}
+
+// notNilOf: "<x> != nil" for a key satisfying pred.
+func notNilOf(s FactSet, pred func(string) bool) bool {
+	return s.Has(func(f Fact) bool { return f.Op == "!=" && oneIsNil(f) && pred(nonNil(f)) })
+}
+
+// trueOf / falseOf: boolean value with key satisfying pred is known true/false.
+func trueOf(s FactSet, pred func(string) bool) bool {
+	return s.Has(func(f Fact) bool { return f.Op == "true" && pred(f.L) })
+}
+func falseOf(s FactSet, pred func(string) bool) bool {
+	return s.Has(func(f Fact) bool { return f.Op == "false" && pred(f.L) })
+}
+func afterOf(s FactSet, pred func(string) bool) bool {
+	return s.Has(func(f Fact) bool { return f.Op == "after" && pred(f.L) })
+}
+
+// retValue resolves result #idx of a return. In functions with defers go/ssa spills
+// named results to locals and returns loads of them; the value is then the last
+// store to that local in the returning block.
+func retValue(r *ssa.Return, idx int) ssa.Value {
+	v := r.Results[idx]
+	u, ok := v.(*ssa.UnOp)
+	if !ok {
+		return v
+	}
+	a, ok := u.X.(*ssa.Alloc)
+	if !ok {
+		return v
+	}
+	b := r.Block()
+	for i := len(b.Instrs) - 1; i >= 0; i-- {
+		if st, ok := b.Instrs[i].(*ssa.Store); ok && st.Addr == a {
+			return st.Val
+		}
+	}
+	return v
+}
+
+// Leaf is one possible definition of a value together with the facts that hold on
+// the paths delivering it.
+type Leaf struct {
+	Val   ssa.Value
+	Facts FactSet
+}
+
+// leaves expands phis: every non-phi definition that can reach v at instruction `at`,
+// with the must-facts of the CFG edge that delivers it.
+func leaves(fl *Flow, v ssa.Value, at ssa.Instruction) []Leaf {
+	var out []Leaf
+	seen := map[*ssa.Phi]bool{}
+	var rec func(v ssa.Value, facts FactSet)
+	rec = func(v ssa.Value, facts FactSet) {
+		if ph, ok := v.(*ssa.Phi); ok {
+			if seen[ph] {
+				return
+			}
+			seen[ph] = true
+			for i, e := range ph.Edges {
+				pred := ph.Block().Preds[i]
+				if !fl.Reachable(pred) {
+					continue
+				}
+				ef := fl.AtEdge(pred, ph.Block())
+				// facts known at the use also hold (they hold on all paths to the use)
+				m := ef.clone()
+				for f := range facts {
+					m[f] = true
+				}
+				rec(e, m)
+			}
+			return
+		}
+		out = append(out, Leaf{v, facts})
+	}
+	rec(v, fl.At(at))
+	return out
 }
